@@ -351,8 +351,6 @@ void h_pre_affinity_remote(void)
 	g_lf = nondet_bool() ? T : NULL;
 	g_rt = (g_pf != NULL || g_lf != NULL) ? T : NULL;
 	mk_thread_and_cpus(T, g_idx);
-	if (g_rt == NULL)
-		g_cell = NULL;
 	name_neighbours(g_rt, g_idx);
 	chan_cb_t keep = stub_dirty_cb; (void) keep;
 	WITNESS_OFF(chan_set); WITNESS_OFF(thread_migrate_cpu); WITNESS_OFF(loom_get_cpu);
